@@ -36,6 +36,7 @@ pub use self::hash256::{sha256d, Hash256};
 pub use self::errors::ChainGangError;
 #[allow(unused_imports)]
 pub use self::serdes::Serializable;
+pub(crate) use self::serdes::{capped_capacity, read_bytes};
 
 /// Gets the time in seconds since a time in the past
 pub fn secs_since(time: SystemTime) -> u32 {
